@@ -20,6 +20,7 @@ package c03
 import (
 	"encoding/hex"
 	"fmt"
+	"math/big"
 	"sort"
 	"strings"
 	"testing"
@@ -27,6 +28,7 @@ import (
 	sdkmath "cosmossdk.io/math"
 	codectypes "github.com/cosmos/cosmos-sdk/codec/types"
 	sdk "github.com/cosmos/cosmos-sdk/types"
+	"github.com/ethereum/go-ethereum/common"
 
 	"github.com/functionx/fx-core/v8/testutil/helpers"
 	fxtypes "github.com/functionx/fx-core/v8/types"
@@ -36,9 +38,34 @@ import (
 	"fxverif/harness/hx"
 )
 
-const keeperChain = "eth"
+// the chains whose keeper is driven: an EVM chain, a second EVM chain (another module name, same address class) and tron
+// (base58 addresses)
+var keeperChains = []string{"eth", "bsc", "tron"}
+
+func keeperOf(s *hx.Suite, chain string) crosschainkeeper.Keeper {
+	switch chain {
+	case "bsc":
+		return s.App.BscKeeper
+	case "tron":
+		return s.App.TronKeeper
+	case "polygon":
+		return s.App.PolygonKeeper
+	}
+	return s.App.EthKeeper
+}
+
+// sameClassChains: the chain names registered with the same external address class (Gen/C03.lean `chains`)
+func sameClassChains(chain string) []string {
+	if chain == "tron" {
+		return []string{"tron"}
+	}
+	return ethChains
+}
 
 type keeperEnv struct {
+	chain    string
+	token    string // a registered bridge token of the chain
+	outNonce uint64 // nonce of an existing outgoing bridge call
 	t        *testing.T
 	r        *run
 	s        *hx.Suite
@@ -53,10 +80,10 @@ type keeperEnv struct {
 
 var powerProfiles = [][]int64{{10, 10, 10, 10}, {40, 30, 20, 10}, {34, 33, 32, 10}, {66, 20, 10, 10}, {25, 25, 25, 25, 25}, {50, 16, 16, 16, 10}}
 
-func newKeeperEnv(t *testing.T, r *run, profile []int64) *keeperEnv {
+func newKeeperEnv(t *testing.T, r *run, profile []int64, keeperChain string) *keeperEnv {
 	n := len(profile)
 	s := hx.NewSuite(t, n)
-	e := &keeperEnv{t: t, r: r, s: s, k: s.App.EthKeeper, index: map[string]int{}, powers: profile}
+	e := &keeperEnv{chain: keeperChain, t: t, r: r, s: s, k: keeperOf(s, keeperChain), index: map[string]int{}, powers: profile}
 	e.srv = crosschainkeeper.NewMsgServerImpl(e.k)
 	amt := sdkmath.NewInt(300 * 1e3).MulRaw(1e18)
 	e.oracles = s.AddTestAddress(n, ct.NewDelegateAmount(amt))
@@ -81,18 +108,316 @@ func newKeeperEnv(t *testing.T, r *run, profile []int64) *keeperEnv {
 		t.Fatalf("end block: %v", err)
 	}
 	s.Ctx = s.Ctx.WithBlockHeight(s.Ctx.BlockHeight() + 1)
+	// state the deferred handlers can act on: a registered bridge token of this chain (a module-owned coin with one alias),
+	// and an outgoing bridge call a result claim can refer to
+	e.token = helpers.GenExternalAddr(keeperChain)
+	md := fxtypes.GetCrossChainMetadataManyToOne("Token TKA", "TKA", 18, ct.NewBridgeDenom(keeperChain, e.token))
+	if _, err := s.App.Erc20Keeper.RegisterNativeCoin(s.Ctx, md); err != nil {
+		t.Fatalf("register coin: %v", err)
+	}
+	if err := e.k.AddBridgeTokenExecuted(s.Ctx, &ct.MsgBridgeTokenClaim{TokenContract: e.token, Name: "Token TKA", Symbol: "TKA", Decimals: 18, ChainName: keeperChain}); err != nil {
+		t.Fatalf("bridge token: %v", err)
+	}
+	e.k.SetLastObservedBlockHeight(s.Ctx, 1000, uint64(s.Ctx.BlockHeight()))
+	user := common.BytesToAddress(e.oracles[0].Bytes())
+	if n, err := e.k.AddOutgoingBridgeCall(s.Ctx, user, user, sdk.NewCoins(), common.Address{}, nil, nil, 0); err != nil {
+		t.Fatalf("outgoing bridge call: %v", err)
+	} else {
+		e.outNonce = n
+	}
 	return e
+}
+
+// okAmount: amounts the bridge can mint, boundary-biased (units, around powers of ten, 2^64, a whole token of 18 decimals)
+func (e *keeperEnv) okAmount(g *gen) sdkmath.Int {
+	switch g.rng.Intn(6) {
+	case 0:
+		return sdkmath.NewInt(int64(1 + g.rng.Intn(3)))
+	case 1:
+		p := sdkmath.NewIntFromBigInt(new(big.Int).Exp(big.NewInt(10), big.NewInt(int64(1+g.rng.Intn(24))), nil))
+		return p.AddRaw(int64(g.rng.Intn(3)) - 1)
+	case 2:
+		return sdkmath.NewIntFromUint64(1 << 63).MulRaw(2).AddRaw(int64(g.rng.Intn(3)) - 1)
+	case 3:
+		return sdkmath.NewInt(1e18).MulRaw(int64(1 + g.rng.Intn(1000)))
+	default:
+		return sdkmath.NewInt(int64(1 + g.rng.Intn(100000)))
+	}
+}
+
+// acceptable rewrites the parts of a generated claim that decide whether the real handler gets anywhere: the registered
+// bridge token with a small amount, a plain receiver, an existing outgoing bridge call — everything else stays as generated
+func (e *keeperEnv) acceptable(g *gen, c claim) {
+	switch m := c.(type) {
+	case *ct.MsgSendToFxClaim:
+		m.TokenContract = e.token
+		m.Amount = e.okAmount(g)
+		m.Receiver = sdk.AccAddress(g.bytes(20)).String()
+		m.TargetIbc = hx.Pick(g.rng, []string{"", hex.EncodeToString([]byte(fxtypes.ERC20Target)), m.TargetIbc})
+	case *ct.MsgBridgeCallClaim:
+		for i := range m.TokenContracts {
+			m.TokenContracts[i] = e.token
+			m.Amounts[i] = e.okAmount(g)
+		}
+		m.Value = sdkmath.ZeroInt()
+	case *ct.MsgBridgeCallResultClaim:
+		m.Nonce = e.outNonce
+	}
 }
 
 func setBridger(c claim, b string) {
 	elem(c).FieldByName("BridgerAddress").SetString(b)
 }
 
+func setChain(c claim, ch string) {
+	elem(c).FieldByName("ChainName").SetString(ch)
+}
+
+func isDeferred(c claim) bool {
+	switch c.(type) {
+	case *ct.MsgSendToFxClaim, *ct.MsgBridgeCallClaim, *ct.MsgBridgeCallResultClaim:
+		return true
+	}
+	return false
+}
+
+// handlerOutcome: what executing claim c NOW would leave behind — the real AttestationHandler (and, for the claim types it
+// only stores, the real ExecuteClaim) on a throw-away branch of the state: the result kind and the digest of every KV store
+// of the app.  A failure before the end means nothing is written (processAttestation / the transaction discard the branch).
+func (e *keeperEnv) handlerOutcome(ctx sdk.Context, c claim) string {
+	cctx, _ := ctx.CacheContext()
+	if res := hx.Try(func() error { return e.k.AttestationHandler(cctx, c) }); res != "ok" {
+		return "handler: " + res
+	}
+	if isDeferred(c) {
+		if res := hx.Try(func() error { return e.k.ExecuteClaim(cctx, c.GetEventNonce()) }); res != "ok" {
+			return "execute: " + res
+		}
+	}
+	d := hx.DumpAll(cctx, e.s.App.GetKVStoreKey())
+	var sb strings.Builder
+	names := make([]string, 0, len(d))
+	for n := range d {
+		names = append(names, n)
+	}
+	sort.Strings(names)
+	for _, n := range names {
+		sb.WriteString(n + "=" + d[n][:12] + " ")
+	}
+	return sb.String()
+}
+
+// outcomeMonitor — "the effect applied is the one voted for, NO MATTER WHICH oracle's vote crosses the threshold", on the
+// real handlers: what the handlers leave behind for claim c must not depend on anything two votes of one attestation may
+// differ in — who relays it (`BridgerAddress`) and which chain of the same address class the claim itself names
+// (`ChainName`): both are outside the ClaimHash.  The claim is executed twice from the same state, once as it is and once
+// as another voter of the same attestation could have submitted it.
+func (e *keeperEnv) outcomeMonitor(ctx sdk.Context, k *kind, what string, c claim, voter int, replay []string) {
+	out := e.r.out
+	if e.r.nOutcomeBy == nil {
+		e.r.nOutcomeBy = map[string]int{}
+	}
+	// one comparison per distinct event and chain (the fixed scenarios submit the same few events many times)
+	if ek := "seen:" + e.chain + ":" + k.tag + ":" + k.effect(c); e.r.nOutcomeBy[ek] > 0 {
+		return
+	} else {
+		e.r.nOutcomeBy[ek]++
+	}
+	if bk := e.chain + ":" + k.tag; e.r.nOutcomeBy[bk] >= hx.N(30, 300) {
+		return
+	} else {
+		e.r.nOutcomeBy[bk]++
+	}
+	e.r.nOutcome++
+	base := e.handlerOutcome(ctx, c)
+	variants := []struct {
+		what string
+		mk   func(claim)
+	}{
+		{"BridgerAddress", func(d claim) { setBridger(d, e.bridgers[(voter+1)%len(e.bridgers)].String()) }},
+	}
+	if alt := sameClassChains(e.chain); len(alt) > 1 {
+		cur := elem(c).FieldByName("ChainName").String()
+		other := alt[(e.r.rng.Intn(len(alt)-1)+1+indexOf(alt, cur))%len(alt)]
+		variants = append(variants, struct {
+			what string
+			mk   func(claim)
+		}{"ChainName (another chain of the same address class)", func(d claim) { setChain(d, other) }})
+	}
+	for _, v := range variants {
+		d := k.clone(c)
+		v.mk(d)
+		if verdict(d) != "ok" || hashOf(d) != hashOf(c) {
+			out.Count("keeper:outcome:variant-not-tallied-together")
+			continue
+		}
+		got := e.handlerOutcome(ctx, d)
+		kindO := "state"
+		if strings.HasPrefix(base, "handler:") || strings.HasPrefix(base, "execute:") {
+			kindO = strings.SplitN(base, ":", 2)[0] + "-fails"
+		}
+		out.Count("keeper:outcome:" + k.tag + ":" + kindO)
+		if got != base {
+			rp := append(append([]string{}, replay...),
+				fmt.Sprintf("# state: real %s keeper before oracle %d votes; the claim executed as submitted:  %+v", e.chain, voter, c),
+				"#   -> "+base,
+				fmt.Sprintf("# the same claim as another voter of the same attestation could submit it (same ClaimHash, passes ValidateBasic): %+v", d),
+				"#   -> "+got)
+			e.r.violate(fmt.Sprintf("real keeper: what the handlers of %s leave behind depends on %s, which the quorum does not vote on", k.name, v.what), rp)
+		}
+	}
+}
+
+func indexOf(xs []string, x string) int {
+	for i, y := range xs {
+		if y == x {
+			return i
+		}
+	}
+	return 0
+}
+
+// bridgeTokenLines: the real AddBridgeTokenExecuted against its regenerated statement list interpreted by the model
+// (`hbt` lines): fresh and already registered contracts, the symbol FX (any spelling near it) with and without 18
+// decimals, on a store that does / does not yet hold the native coin's entry; some runs are kept so that later ones see them
+func (e *keeperEnv) bridgeTokenLines(g *gen, k *kind) {
+	out := e.r.out
+	out.Reset("bridge-token-handler")
+	ctx, _ := e.s.Ctx.CacheContext()
+	store := func(c sdk.Context) func(string) (string, bool) {
+		return func(key string) (string, bool) {
+			bz := c.KVStore(e.s.App.GetKey(e.chain)).Get(ct.GetBridgeDenomKey(key))
+			return string(bz), len(bz) > 0
+		}
+	}
+	for i := 0; i < hx.N(24, 200); i++ {
+		m := k.base(g, e.chain).(*ct.MsgBridgeTokenClaim)
+		switch g.rng.Intn(4) {
+		case 0:
+			m.TokenContract = e.token // registered at set-up
+		}
+		switch g.rng.Intn(5) {
+		case 0, 1:
+			m.Symbol = fxtypes.DefaultDenom
+		case 2:
+			m.Symbol = hx.Pick(g.rng, []string{"fx", "FX ", "FX/FX", "Fx", "F", "FXX"})
+		}
+		switch g.rng.Intn(3) {
+		case 0:
+			m.Decimals = 18
+		case 1:
+			m.Decimals = hx.Pick(g.rng, []uint64{0, 6, 17, 19, 18 + 1<<32})
+		}
+		if verdict(m) != "ok" {
+			continue
+		}
+		bd := ct.NewBridgeDenom(e.chain, m.TokenContract)
+		keys := []string{bd, fxtypes.DefaultDenom}
+		sort.Strings(keys)
+		var pre []string
+		get := store(ctx)
+		for _, kk := range keys {
+			if v, ok := get(kk); ok {
+				pre = append(pre, hx.HexS(kk)+":"+hx.HexS(v))
+			}
+		}
+		preS := "-"
+		if len(pre) > 0 {
+			preS = strings.Join(pre, ",")
+		}
+		cctx, commit := ctx.CacheContext()
+		res := hx.Try(func() error { return e.k.AddBridgeTokenExecuted(cctx, m) })
+		obs := "err"
+		if res == "ok" {
+			var post []string
+			getP := store(cctx)
+			for _, kk := range keys {
+				if v, ok := getP(kk); ok {
+					post = append(post, hx.HexS(kk)+"="+hx.HexS(v))
+				}
+			}
+			sort.Strings(post)
+			obs = "ok " + strings.Join(post, ",")
+			if g.rng.Intn(2) == 0 {
+				commit()
+			}
+		} else if strings.HasPrefix(res, "panic:") {
+			obs = "panic"
+		}
+		out.Count("bridge-token-handler:" + strings.SplitN(obs, " ", 2)[0] + ":" + map[bool]string{true: "FX", false: "other"}[m.Symbol == fxtypes.DefaultDenom])
+		out.Emit(fmt.Sprintf("hbt %s %s %s %s", hx.HexS(e.chain), preS, k.line(m), ckBit(k, m)), obs)
+	}
+}
+
+// viewDepLines — is the regenerated handler view COMPLETE?  One field of a handler-acceptable claim is changed (to another
+// valid value) and the real handlers are run on both claims from one state; if what they leave behind differs, the field
+// must be one of those the regenerated `handlerView` lists (the model answers from Gen/C03.lean `viewFields`).  EventNonce
+// is left alone (it is the pending-store key, read through the ExternalClaim interface).
+func (e *keeperEnv) viewDepLines(g *gen, ks map[string]*kind) {
+	out := e.r.out
+	out.Reset("view-dependence")
+	ctx, _ := e.s.Ctx.CacheContext()
+	for _, tag := range []string{"stf", "bc", "bcr", "ste", "bt", "osu"} {
+		k := ks[tag]
+		for i := 0; i < hx.N(3, 25); i++ {
+			base := k.base(g, e.chain)
+			e.acceptable(g, base)
+			if m, ok := base.(*ct.MsgOracleSetUpdatedClaim); ok {
+				m.OracleSetNonce = 0
+			}
+			if verdict(base) != "ok" {
+				continue
+			}
+			o0 := e.handlerOutcome(ctx, base)
+			try := func(name string, d claim) {
+				if d == nil || verdict(d) != "ok" {
+					return
+				}
+				finding := "indep"
+				if e.handlerOutcome(ctx, d) != o0 {
+					finding = "dep"
+				}
+				out.Count("view-dependence:" + tag + ":" + name + ":" + finding)
+				out.Emit(fmt.Sprintf("hdep %s %s %s", tag, name, finding), "ok")
+			}
+			for _, f := range k.fields {
+				if f.name == "EventNonce" {
+					continue
+				}
+				d := k.clone(base)
+				f.mutate(g, d, e.chain)
+				try(f.name, d)
+			}
+			if alt := sameClassChains(e.chain); len(alt) > 1 {
+				d := k.clone(base)
+				setChain(d, alt[(indexOf(alt, e.chain)+1+g.rng.Intn(len(alt)-1))%len(alt)])
+				try("ChainName", d)
+			}
+		}
+	}
+}
+
+// keyLines: types.GetAttestationKey / GetPendingExecuteClaimKey against the regenerated layouts interpreted by the model
+func (e *keeperEnv) keyLines(g *gen) {
+	out := e.r.out
+	out.Reset("keys")
+	for i := 0; i < hx.N(12, 100); i++ {
+		n := g.u64()
+		h := g.bytes(32)
+		if i%5 == 4 {
+			h = g.bytes(1 + g.rng.Intn(40))
+		}
+		out.Emit(fmt.Sprintf("akey %d %s", n, hex.EncodeToString(h)), hex.EncodeToString(ct.GetAttestationKey(n, h)))
+		out.Emit(fmt.Sprintf("pkey %d", n), hex.EncodeToString(ct.GetPendingExecuteClaimKey(n)))
+		out.Count("keys:compared")
+	}
+}
+
 // attTable: attestations of one event nonce on the real store, by STORE KEY: hash part of the key -> (voter indices, observed)
 func (e *keeperEnv) attTable(ctx sdk.Context, nonce uint64) string {
 	var rows []string
 	prefix := ct.GetAttestationKey(nonce, nil)
-	for _, kv := range hx.RawPrefix(ctx, e.s.App.GetKey(keeperChain), prefix) {
+	for _, kv := range hx.RawPrefix(ctx, e.s.App.GetKey(e.chain), prefix) {
 		var att ct.Attestation
 		e.s.App.AppCodec().MustUnmarshal(kv[1], &att)
 		var vs []string
@@ -180,7 +505,7 @@ func (e *keeperEnv) applyShifts(ctx sdk.Context, shifts []shift, replay *[]strin
 		case "add":
 			cctx, commit := ctx.CacheContext()
 			res = hx.Try(func() error {
-				_, err := e.srv.AddDelegate(cctx, &ct.MsgAddDelegate{ChainName: keeperChain, OracleAddress: e.oracles[sh.oracle].String(),
+				_, err := e.srv.AddDelegate(cctx, &ct.MsgAddDelegate{ChainName: e.chain, OracleAddress: e.oracles[sh.oracle].String(),
 					Amount: ct.NewDelegateAmount(sdkmath.NewInt(sh.amount * 1e3).MulRaw(1e18))})
 				return err
 			})
@@ -243,8 +568,8 @@ func (e *keeperEnv) replay(k *kind, what string, claims []claim, order []int, sh
 		ps = append(ps, o.GetPower().String()+":"+hx.HexS(e.exts[i]))
 	}
 	out.Emit(fmt.Sprintf("cfg %s %s", total.String(), strings.Join(ps, " ")), "ok")
-	out.Emit(fmt.Sprintf("last %d", nonce-1), "ok")
-	replay := []string{fmt.Sprintf("# real keeper (%s), %d oracles of power %v, last observed nonce %d; votes in order:", keeperChain, len(e.oracles), e.powers, nonce-1)}
+	out.Emit(fmt.Sprintf("last %d %d", nonce-1, e.k.GetLastObservedBlockHeight(ctx).ExternalBlockHeight), "ok")
+	replay := []string{fmt.Sprintf("# real keeper (%s), %d oracles of power %v, last observed nonce %d; votes in order:", e.chain, len(e.oracles), e.powers, nonce-1)}
 	votes := map[int]claim{}
 	observedBefore := map[string]bool{}
 	for pos, i := range order {
@@ -256,14 +581,26 @@ func (e *keeperEnv) replay(k *kind, what string, claims []claim, order []int, sh
 		}
 		c := k.clone(claims[i])
 		setBridger(c, e.bridgers[i].String())
+		if alt := sameClassChains(e.chain); len(alt) > 1 && e.r.rng.Intn(3) == 0 {
+			// the claim's OWN chain name is neither hashed nor compared with the chain the MsgClaim is routed to: a voter may
+			// name any chain (ValidateBasic then applies that chain's address class)
+			if c2 := k.clone(c); true {
+				setChain(c2, hx.Pick(e.r.rng, alt))
+				if verdict(c2) == "ok" {
+					c = c2
+					out.Count("keeper:vote:inner-chain-name-differs")
+				}
+			}
+		}
 		votes[i] = c
 		hp, herr := e.handlerPanics(ctx, c)
+		e.outcomeMonitor(ctx, k, what, c, i, replay)
 		line := fmt.Sprintf("vote %d %s %s %s", i, b01(hp), k.line(c), ckBit(k, c))
 		replay = append(replay, line, fmt.Sprintf("#   oracle %d: %+v", i, c))
 		anyClaim, _ := codectypes.NewAnyWithValue(c)
 		cctx, commit := ctx.CacheContext()
 		res := hx.Try(func() error {
-			_, err := e.srv.Claim(cctx, &ct.MsgClaim{ChainName: keeperChain, BridgerAddress: e.bridgers[i].String(), Claim: anyClaim})
+			_, err := e.srv.Claim(cctx, &ct.MsgClaim{ChainName: e.chain, BridgerAddress: e.bridgers[i].String(), Claim: anyClaim})
 			return err
 		})
 		kindR := "ok"
@@ -317,7 +654,7 @@ func (e *keeperEnv) replay(k *kind, what string, claims []claim, order []int, sh
 				r.violate(fmt.Sprintf("real keeper: state written by the handler differs from the executed claim in %s: %s", k.name, what), rp)
 			}
 		}
-		out.Emit(line, fmt.Sprintf("%s last=%d exec=%s pend=%s atts=%s", kindR, lastObs, execHash, e.pendOf(ctx, nonce), e.attTable(ctx, nonce)))
+		out.Emit(line, fmt.Sprintf("%s last=%d h=%d exec=%s pend=%s atts=%s", kindR, lastObs, e.k.GetLastObservedBlockHeight(ctx).ExternalBlockHeight, execHash, e.pendOf(ctx, nonce), e.attTable(ctx, nonce)))
 	}
 	// (5) tallied together only if they agree: in the final table of the nonce, the voters of every attestation (observed
 	// or not) submitted claims with one and the same effect
@@ -398,7 +735,7 @@ func (e *keeperEnv) renameMembers(k *kind, a, b claim, mustCollide bool) (claim,
 			ms[i].ExternalAddress = names[ms[i].ExternalAddress]
 		}
 	}
-	ma.ChainName, mb.ChainName = keeperChain, keeperChain
+	ma.ChainName, mb.ChainName = e.chain, e.chain
 	if verdict(ma) != "ok" || verdict(mb) != "ok" || (mustCollide && hashOf(ma) != hashOf(mb)) || k.effect(ma) == k.effect(mb) {
 		return nil, nil, false
 	}
@@ -410,15 +747,27 @@ func orders(g *gen, n int) []int {
 	return g.rng.Perm(n)
 }
 
+// keeperRun drives the real keeper of every chain of `keeperChains`: the first one with the full scenario set, the others
+// (another module name / tron's base58 addresses) with the fixed scenarios, every collision found and a smaller generated set
 func keeperRun(t *testing.T, r *run, g *gen, ks map[string]*kind) {
-	profile := powerProfiles[int(hx.Seed()+3)%len(powerProfiles)]
+	for i, chain := range keeperChains {
+		keeperRunOn(t, r, g, ks, chain, i == 0, i)
+	}
+}
+
+func keeperRunOn(t *testing.T, r *run, g *gen, ks map[string]*kind, keeperChain string, full bool, idx int) {
+	profile := powerProfiles[int(hx.Seed()+3+int64(idx))%len(powerProfiles)]
 	if hx.Seed() < 0 {
 		profile = powerProfiles[0]
 	}
-	e := newKeeperEnv(t, r, profile)
+	e := newKeeperEnv(t, r, profile, keeperChain)
 	n := len(e.oracles)
-	r.out.Stats.Extra["keeper_power_profile"] = fmt.Sprint(profile)
+	r.out.Stats.Extra["keeper_power_profile:"+keeperChain] = fmt.Sprint(profile)
+	r.out.Count("keeper:chain:" + keeperChain)
 	kg := &gen{rng: g.rng, pool: e.exts}
+	e.keyLines(g)
+	e.bridgeTokenLines(kg, ks["bt"])
+	e.viewDepLines(kg, ks)
 
 	// disagree: M from everyone except the deviators, who vote D
 	disagree := func(k *kind, what string, m, d claim, deviators []int, order []int) {
@@ -497,10 +846,10 @@ func keeperRun(t *testing.T, r *run, g *gen, ks map[string]*kind) {
 		return &ct.MsgBridgeTokenClaim{EventNonce: next, BlockHeight: 1000, TokenContract: tok, Name: name, Symbol: symbol, Decimals: 18, BridgerAddress: bech, ChainName: keeperChain}
 	}
 	result := func(origin string) claim {
-		return &ct.MsgBridgeCallResultClaim{ChainName: keeperChain, BridgerAddress: bech, EventNonce: next, BlockHeight: 1000, Nonce: 77, TxOrigin: origin, Success: true}
+		return &ct.MsgBridgeCallResultClaim{ChainName: keeperChain, BridgerAddress: bech, EventNonce: next, BlockHeight: 1000, Nonce: e.outNonce, TxOrigin: origin, Success: true}
 	}
 	send := func(amount int64, target string) claim {
-		return &ct.MsgSendToFxClaim{EventNonce: next, BlockHeight: 1000, TokenContract: tok, Amount: sdkmath.NewInt(amount), Sender: ethA,
+		return &ct.MsgSendToFxClaim{EventNonce: next, BlockHeight: 1000, TokenContract: e.token, Amount: sdkmath.NewInt(amount), Sender: ethA,
 			Receiver: bech, TargetIbc: hex.EncodeToString([]byte(target)), BridgerAddress: bech, ChainName: keeperChain}
 	}
 	sendCallTo := hex.EncodeToString(ct.MemoSendCallTo.Bytes())
@@ -521,6 +870,9 @@ func keeperRun(t *testing.T, r *run, g *gen, ks map[string]*kind) {
 	}
 	// 2b. the corpus pairs that are valid (oracle-set members renamed to registered oracles)
 	for _, p := range r.corpus {
+		if !full {
+			break
+		}
 		a, b := p.a, p.b
 		if a2, b2, ok := e.renameMembers(p.k, a, b, false); ok {
 			a, b = a2, b2
@@ -534,10 +886,17 @@ func keeperRun(t *testing.T, r *run, g *gen, ks map[string]*kind) {
 
 	// 3. generated disagreements: single-field variants and perturbation variants of keeper-acceptable claims
 	nGen := hx.N(24, 200)
+	if !full {
+		nGen = hx.N(6, 60)
+	}
 	for _, tag := range []string{"stf", "bc", "bcr", "ste", "bt", "osu"} {
 		k := ks[tag]
 		for i := 0; i < nGen; i++ {
 			base := k.base(kg, keeperChain)
+			if g.rng.Intn(3) != 0 {
+				e.acceptable(g, base)
+				r.out.Count("keeper:generated:acceptable-to-handler")
+			}
 			if verdict(base) != "ok" {
 				continue
 			}
